@@ -53,6 +53,7 @@ Fixpoint p_hub (seen : list sx) (rest : list sx) : sx :=
         else if tag_is "nilret" e then bad "receive-returned-success-without-a-message"
         else if tag_is "panic" e then bad "panic"
         else if tag_is "leak" e then bad "goroutines-left-running-after-close"
+        else if tag_is "lost" e then bad "accepted-message-never-handed-to-a-callback"
         else if tag_is "meet" e then
           (* exactly one callback per message and per call *)
           if existsb (fun x => tag_is "meet" x && (arg2 x =? arg2 e)) seen then bad "message-handed-to-two-callbacks"
